@@ -30,15 +30,7 @@ var notApplicable = []struct{ ID, Reason string }{
 // notYet: simulation targets by DESIGN.md whose harness is not built (yet); listed so MANIFEST says why they are unclaimed.
 var notYet = []struct{ ID, Reason string }{
 	{"C14", "simulation target by DESIGN.md §2/§5, but its harness is not built yet (work in progress): not claimed until the check exists"},
-	{"C17", "simulation target by DESIGN.md §2/§5, but its harness is not built yet (work in progress): not claimed until the check exists"},
 	{"C21", "simulation target by DESIGN.md §2/§5, but its harness is not built yet (work in progress): not claimed until the check exists"},
-	{"C23", "simulation target by DESIGN.md §2/§5, but its harness is not built yet (work in progress): not claimed until the check exists"},
-	{"C24", "simulation target by DESIGN.md §2/§5, but its harness is not built yet (work in progress): not claimed until the check exists"},
-	{"C25", "simulation target by DESIGN.md §2/§5, but its harness is not built yet (work in progress): not claimed until the check exists"},
-	{"C26", "simulation target by DESIGN.md §2/§5, but its harness is not built yet (work in progress): not claimed until the check exists"},
-	{"C31", "simulation target by DESIGN.md §2/§5, but its harness is not built yet (work in progress): not claimed until the check exists"},
-	{"C34", "simulation target by DESIGN.md §2/§5, but its harness is not built yet (work in progress): not claimed until the check exists"},
-	{"C35", "simulation target by DESIGN.md §2/§5, but its harness is not built yet (work in progress): not claimed until the check exists"},
 }
 
 func writeManifest() error {
@@ -135,6 +127,7 @@ func writeManifest() error {
 }
 
 var harnessKind = map[string]string{
+	"h4chain": "H4 chain simulation: the real node (fuzz service, STF, chain state) under author-built block histories with injected invalid blocks, retries, orphans, forks and restarts; oracles = a reference incarnation that never saw the rejected blocks + independent reference models",
 	"h2sched": "H2 schedule simulation: real accumulation round under a seeded scheduler, worker-pool knob and simulated map iteration order; N executions must agree",
 	"h3acc":   "H3 accumulation-transaction simulation: real PVM.Psi_A on generated programs/states, host calls observed through wrappers in PVM.AccumulateOmegas, abort points injected through the gas limit, reference-model oracles in exact integers",
 	"h5cache": "H5 component-history simulation: root-computation histories on a live ChainState with the leaf-cache capacity as a randomised knob, cached vs uncached differential oracle",
